@@ -384,6 +384,14 @@ pub fn run_history(name: &str, toks: &[String]) -> String {
         "@hello" => run_hello(toks),
         #[cfg(feature = "serialize")]
         "@ser" => crate::ser::run_ser(toks),
+        "@exttype" => {
+            let h = toks.get(0).map(|s| s.as_str()).unwrap_or("");
+            let raw: Vec<u8> = if h == "-" { Vec::new() } else { (0..h.len() / 2).map(|k| u8::from_str_radix(&h[2 * k..2 * k + 2], 16).unwrap_or(0)).collect() };
+            match parse_tls_extension(&raw) {
+                Ok((_, e)) => format!("(tag {})", TlsExtensionType::from(&e).0),
+                Err(_) => "(none)".to_string(),
+            }
+        }
         "@nt" => run_nt(toks.get(0).map(|s| s.as_str()).unwrap_or(""), num(1)),
         "@conv" => run_conv(toks.get(0).map(|s| s.as_str()).unwrap_or(""), num(1)),
         "@sig" => { let s = SignatureScheme(num(0) as u16); format!("(sig {} {} {})", s.hash_alg(), s.sign_alg(), s.is_reserved()) }
